@@ -389,3 +389,20 @@ pub fn list_document_styled(bucket: &str, prefix: &str, objects: &[ListedObject]
     s.push_str("</ListBucketResult>");
     s
 }
+
+
+/// Spells an instant as an xs:dateTime / RFC 3339 string in one of several equivalent ways: `Z`, `+00:00`, or a
+/// numeric offset with the clock reading shifted accordingly (style 2: -05:00, 3: +05:30, 4: -05:00 or -06:00 depending
+/// on the parity of `salt`, 5: +14:00 / -12:00 by parity). The instant is the same in every style.
+pub fn spell_instant(dt: chrono::DateTime<chrono::Utc>, style: u8, salt: u64) -> String {
+    let offset_min: i32 = match style % 6 {
+        0 => return dt.format("%Y-%m-%dT%H:%M:%S%.3fZ").to_string(),
+        1 => 0,
+        2 => -300,
+        3 => 330,
+        4 => if salt % 2 == 0 { -300 } else { -360 },
+        _ => if salt % 2 == 0 { 840 } else { -720 },
+    };
+    let tz = chrono::FixedOffset::east_opt(offset_min * 60).expect("valid offset");
+    dt.with_timezone(&tz).format("%Y-%m-%dT%H:%M:%S%.3f%:z").to_string()
+}
